@@ -32,9 +32,9 @@ type c8step struct {
 // c8node is one addressable node of a generated data tree
 type c8node struct {
 	steps []c8step
-	kind  string     // root | cont | list | row | leaf
+	kind  string      // root | cont | list | row | leaf
 	s     *tree.SNode // schema node of the node itself (root: the module view)
-	cont  *tree.Cont // content (root, cont, row)
+	cont  *tree.Cont  // content (root, cont, row)
 }
 
 func (n *c8node) containerLike() bool { return n.kind == "root" || n.kind == "cont" || n.kind == "row" }
@@ -740,7 +740,9 @@ func (t *c8tree) calls(r *gen.Rng, budget int) []c8call {
 func (t *c8tree) negativeCalls(r *gen.Rng, starts []*c8node) []c8call {
 	var out []c8call
 	holders := append([]*c8node{t.rootNode}, starts...)
-	unknown := func() string { return gen.Pick(r, []string{"zz9", "nope", "x", "l0", "c-1", "Q", "ü", "a%20b", "k%3D"}) }
+	unknown := func() string {
+		return gen.Pick(r, []string{"zz9", "nope", "x", "l0", "c-1", "Q", "ü", "a%20b", "k%3D"})
+	}
 	join := func(a, b string) string {
 		if a == "" {
 			return b
